@@ -260,6 +260,34 @@ def _derive_from_param(f, l, depth=0, seen=None, had_field=False):
     return out
 
 
+def _derive_from_param_any(f, l, depth=0, seen=None):
+    """like _derive_from_param, for values of any type: the parameters a local is computed from through copies, refs and calls"""
+    seen = seen if seen is not None else set()
+    if l is None or l in seen or depth > 30:
+        return set()
+    seen.add(l)
+    out = set()
+    for d in f.defs().get(l, []):
+        if d[0] == "arg":
+            out.add((("param", d[1]), False))
+        elif d[0] == "call":
+            srcs = [op_local(a) for a in d[2]["args"] if op_local(a) is not None]
+            if not srcs:
+                out.add((("other", "call"), False))
+            for sl in srcs[:1]:
+                out |= _derive_from_param_any(f, sl, depth + 1, seen)
+        elif d[0] == "assign":
+            rv = d[3]
+            srcs = [op_local(rv[1])] if rv[0] == "use" else [place_local(rv[2])] if rv[0] == "ref" else [op_local(rv[2])] if rv[0] == "cast" else []
+            if not srcs:
+                out.add((("other", rv[0]), False))
+            for sl in srcs:
+                out |= _derive_from_param_any(f, sl, depth + 1, seen)
+        else:
+            out.add((("other", d[0]), False))
+    return out
+
+
 def _strict(f, x):
     """root acceptable as a strict sub-node: a (captured) parameter reached through an AST field projection, or --
     inside a closure -- the element parameter the adaptor hands to the closure (strictness is established on the
@@ -401,6 +429,15 @@ def classify_scc(ctx, crate, cg, comp):
                         # a thunk (`.or_else(|| ...)`): the adaptor hands it nothing; its own calls are checked through
                         # the captured variables
                         continue
+                    # the receiver is a generic iterable handed in by the caller (`blocks: impl IntoIterator<Item = &[Stmt]>`) and
+                    # the closure's element parameter is AST-typed: the closure gets elements of what the caller passed --
+                    # no descent on this edge, and none lost (the descent is on the edge that built the iterable)
+                    gen_args = [a for a in c["args"] if op_local(a) is not None and not _is_fn_ty(f, op_local(a))]
+                    if tf.kind == "closure" and any(_ast_typed(tf, i) for i in range(2, tf.argc + 1)) and gen_args and \
+                            all(x[0][0] in ("param", "upvar-param") for a in gen_args[:1]
+                                for x in (_derive_from_param_any(f, op_local(a)) or {(("other", "?"), False)})):
+                        same_edges.append((fid, t))
+                        continue
                     # closure invoked with elements of a non-AST collection
                     problems.append("%s -> %s via %s without an AST-typed argument" % (fid, t, via))
                     continue
@@ -413,7 +450,10 @@ def classify_scc(ctx, crate, cg, comp):
                     if bad:
                         problems.append("%s -> %s: argument not a strict sub-node: %s" % (fid, t, sorted(bad)[:3]))
                 continue
-            ast_params = [i for i in range(1, tf.argc + 1) if _ast_typed(tf, i)]
+            # a parameter counts as AST-typed by its declared type, or -- for a generic parameter -- by the type of the argument
+            ast_params = [i for i in range(1, tf.argc + 1) if _ast_typed(tf, i) or
+                          (i - 1 < len(c_args) and op_local(c_args[i - 1]) is not None and _ast_typed(f, op_local(c_args[i - 1]))
+                           and not re.match(r"^&?(mut )?(std::|core::|alloc::|u\d|i\d|bool|usize|str)", tf.local_ty(i)))]
             if not ast_params:
                 problems.append("%s -> %s has no AST-typed parameter" % (fid, t))
                 continue
